@@ -1,3 +1,71 @@
-import Mwp.Base
+/-
+  C14 — saving an analysis result and loading it back yields a result that serialises to the same
+  JSON; scalar fields keep their values even when they are zero, false or empty.
+
+  Model: Mwp/Model/Result.lean (`toDict` = `to_dict`, `fromDict` = `from_dict`, table-driven from
+  the generated `_attrs` / `_ser_*` lists).  `WFObj` (Mwp/Lemmas/ResultThmsDefs.lean) lists what
+  an object built by the analysis satisfies (and the sample objects `Sample.*` used in the examples);
+  proofs are in Mwp/Lemmas/ResultThms.lean.
+-/
+import Mwp.Lemmas.ResultThms
 namespace Mwp.Props.C14
+open Mwp Mwp.Result Mwp.Result.Sample
+
+/-- documents produced by `toDict` are fixed points of load-then-save, for every class -/
+theorem roundtrip_toDict (cls : Cls) (o : Obj) (h : WFObj cls o) :
+    roundtrip cls (toDict cls o) = toDict cls o := by
+  unfold roundtrip
+  rw [fromDict_toDict cls o h]
+
+/-- Non-vacuity: a whole `Result` (program, two functions, loop results with variable results) is
+    well-formed, so its saved document is a fixed point. -/
+example : roundtrip .result (toDict .result result0) = toDict .result result0 :=
+  roundtrip_toDict _ _ (by decide)
+example : WFObj .funcResult func0 ∧ WFObj .funcResult func1 ∧ WFObj .vResult var1 ∧
+    WFObj .loopResult loop0 ∧ WFObj .funcLoops funcLoops0 ∧ WFObj .program program0 := by decide
+
+/-- loading restores the simple attributes exactly, including 0 / false / "" / [] -/
+theorem fromDict_attrs (cls : Cls) (o : Obj) (h : WFObj cls o) :
+    (fromDict cls (toDict cls o)).attrs = o.attrs := by
+  rw [fromDict_toDict cls o h]
+
+/-- Non-vacuity: `index = 0`, `infinite = False`, `inf_flows = ""`, `variables = []` come back. -/
+example : (fromDict .funcResult (toDict .funcResult func0)).attrs =
+    [("name", .str "f"), ("infinite", .bool false), ("start_time", .num 0), ("end_time", .num 0),
+     ("variables", .arr []), ("inf_flows", .str ""), ("index", .num 0), ("func_code", .str "")] :=
+  fromDict_attrs _ _ (by decide)
+example : (fromDict .program (toDict .program program0)).attrs = program0.attrs :=
+  fromDict_attrs _ _ (by decide)
+
+/-- loading restores the whole object: parts (relation, choices, bound) and nested results too -/
+theorem fromDict_toDict (cls : Cls) (o : Obj) (h : WFObj cls o) : fromDict cls (toDict cls o) = o :=
+  Mwp.Result.fromDict_toDict cls o h
+
+example : fromDict .result (toDict .result result0) = result0 := fromDict_toDict _ _ (by decide)
+
+/-! Negative witnesses: the defect that was repaired, and objects outside `WFObj`. -/
+
+/-- With the old `_try_set` (`if ob:` instead of `if ob is not None:`) the attribute `index = 0`
+    of the same document came back as the constructor default `-1`, `n_lines = 0` likewise, and
+    the empty `inf_flows` as `None`. -/
+example : (fromDictOld .funcResult (toDict .funcResult func0)).getAttr "index" = .num (-1) := rfl
+example : (fromDictOld .funcResult (toDict .funcResult func0)).getAttr "index"
+    ≠ func0.getAttr "index" := by
+  show JVal.num (-1) ≠ JVal.num 0
+  intro h; cases h
+example : (fromDictOld .program (toDict .program program0)).getAttr "n_lines" = .num (-1) := rfl
+example : (fromDictOld .funcResult (toDict .funcResult func0)).getAttr "inf_flows" = .null := rfl
+/-- ... and the empty relation and bound of a function without variables were dropped. -/
+example : (fromDictOld .funcResult (toDict .funcResult func0)).parts = [] := rfl
+example : (fromDict .funcResult (toDict .funcResult func0)).parts = func0.parts := rfl
+
+/-- `WFObj` clause (P-choices) is needed: a choice object with an empty `valid` list and a negative
+    `index` is written by `to_dict` but not restored by `from_dict` (`if choices:`). -/
+example : roundtrip .vResult (toDict .vResult { var0 with parts := [("choices", .arr [])] })
+    ≠ toDict .vResult { var0 with parts := [("choices", .arr [])] } := by
+  intro h
+  have := congrArg (fun d => isNull (tryGet d ["choices"])) h
+  revert this
+  decide
+
 end Mwp.Props.C14
